@@ -303,9 +303,7 @@ Theorem mask_orig_agrees fs n k : (0 < fs)%Q -> (0 < n)%nat ->
 Proof.
   intros Hfs Hn Heps Hk. pose proof (mask_orig_exact fs n k Hfs Hn Heps) as HD.
   pose proof (doubled_iff k) as HI. apply zrange_In in Hk.
-  destruct (mask_orig fs n k), (doubled k); try reflexivity.
-  - destruct HD as [HD _]. specialize (HD eq_refl). destruct HI as [_ HI]. rewrite HI in *; [discriminate|lia].
-  - destruct HI as [HI _]. specialize (HI eq_refl). destruct HD as [_ HD]. rewrite HD in *; [discriminate|lia].
+  apply Bool.eq_true_iff_eq. rewrite HD, HI. lia.
 Qed.
 
 (* crop / zero-pad *)
